@@ -41,6 +41,18 @@ type fsHarness struct {
 	// bytes acknowledged since the sink last opened a file, tracked independently of the sink's own
 	// counter (-1: unknown after a failed call)
 	sinceOpen int64
+	// the configured file name: stem + ext ("" = none: rotated files then end in .log), and a file of
+	// ANOTHER sink in the same directory whose name shares a prefix with ours
+	stem, ext, decoy string
+	skipRest         bool // the case can no longer be followed (a call straddled MaxDuration): drop its remaining operations
+}
+
+func (h *fsHarness) plainName() string { return h.stem + h.ext }
+func (h *fsHarness) tsExt() string {
+	if h.ext == "" {
+		return ".log"
+	}
+	return h.ext
 }
 
 func (h *fsHarness) oracle(f string, a ...any) {
@@ -103,11 +115,11 @@ func (h *fsHarness) list() ([]fsFile, string) {
 		n := e.Name()
 		f := fsFile{}
 		switch {
-		case n == "ev.log":
+		case n == h.plainName():
 			f.kind = "plain"
-		case strings.HasPrefix(n, "ev-") && strings.HasSuffix(n, ".log"):
+		case strings.HasPrefix(n, h.stem+"-") && strings.HasSuffix(n, h.tsExt()):
 			f.kind = "ts"
-			f.key, _ = strconv.ParseInt(strings.TrimSuffix(strings.TrimPrefix(n, "ev-"), ".log"), 10, 64)
+			f.key, _ = strconv.ParseInt(strings.TrimSuffix(strings.TrimPrefix(n, h.stem+"-"), h.tsExt()), 10, 64)
 		case strings.HasPrefix(n, "moved"):
 			f.kind = "foreign"
 			f.key, _ = strconv.ParseInt(strings.TrimSuffix(strings.TrimPrefix(n, "moved"), ".log"), 10, 64)
@@ -160,6 +172,22 @@ func (h *fsHarness) listing() string {
 
 // checkFiles: C08 (whole events, once, in order, only retention may remove) and C15 (retention, names, modes)
 func (h *fsHarness) checkFiles(afterRotation bool) {
+	// names: nothing but the plain file, base-<timestamp> files, externally renamed files and the other sink's file
+	if h.decoy != "" {
+		if _, err := os.Stat(filepath.Join(h.dir, h.decoy)); err != nil {
+			h.oracle("C15 the file %s of another sink (outside this sink's name space %s-*%s) was removed", h.decoy, h.stem, h.tsExt())
+		}
+	}
+	if ents, err := os.ReadDir(h.dir); err == nil {
+		for _, e := range ents {
+			n := e.Name()
+			ok := n == h.plainName() || n == h.decoy || strings.HasPrefix(n, "moved") ||
+				(strings.HasPrefix(n, h.stem+"-") && strings.HasSuffix(n, h.tsExt()))
+			if !ok {
+				h.oracle("C15 a file named %s appeared: not the configured name %s, not %s-<timestamp>%s", n, h.plainName(), h.stem, h.tsExt())
+			}
+		}
+	}
 	fs, bad := h.list()
 	if bad != "" {
 		h.oracle("C08 %s", bad)
@@ -241,7 +269,7 @@ func (h *fsHarness) checkFiles(afterRotation bool) {
 		}
 	}
 	if h.tso && h.lastOK {
-		if _, err := os.Stat(filepath.Join(h.dir, "ev.log")); err != nil && !h.foreign {
+		if _, err := os.Stat(filepath.Join(h.dir, h.plainName())); err != nil && !h.foreign {
 			h.oracle("C15 TimestampOnlyOnRotate: the plain file name is not the active file")
 		}
 	}
@@ -251,7 +279,14 @@ func (h *fsHarness) reset(f []string) {
 	h.mb, h.mf, h.md, h.tso, h.mode = atoi(f[1]), atoi(f[2]), atoi(f[3]), f[4] == "1", atoi(f[5])
 	h.dir = filepath.Join(h.base, fmt.Sprintf("c%d", h.st.Cases))
 	os.RemoveAll(h.dir)
-	h.sink = &eventlogger.FileSink{Path: h.dir, FileName: "ev.log", MaxBytes: h.mb, MaxFiles: h.mf, MaxDuration: time.Duration(h.md) * time.Millisecond,
+	names := [][3]string{{"ev", ".log", ""}, {"catalog", ".log", "cata-1000000000000000000.log"}, {"debug", ".log", "debu-1000000000000000000.log"}, {"syslog", "", "sys-1000000000000000000.log"}}
+	nm := names[(h.mb+h.mf+h.md+h.mode)%len(names)]
+	h.stem, h.ext, h.decoy = nm[0], nm[1], nm[2]
+	if h.decoy != "" {
+		os.MkdirAll(h.dir, 0o700)
+		os.WriteFile(filepath.Join(h.dir, h.decoy), []byte("another sink's file\n"), 0o600)
+	}
+	h.sink = &eventlogger.FileSink{Path: h.dir, FileName: h.plainName(), MaxBytes: h.mb, MaxFiles: h.mf, MaxDuration: time.Duration(h.md) * time.Millisecond,
 		TimestampOnlyOnRotate: h.tso, Mode: os.FileMode(h.mode)}
 	h.acked = nil
 	h.caseOps = nil
@@ -280,7 +315,15 @@ func (h *fsHarness) exec(line string) (string, string) {
 		bwBefore := h.sink.BytesWritten
 		lcBefore := h.sink.LastCreated
 		eb := time.Since(lcBefore)
+		tCall := time.Now()
 		_, err := h.sink.Process(context.Background(), e)
+		if h.md > 0 && time.Since(tCall) > time.Duration(h.md)*time.Millisecond/3 {
+			// the call itself took a sizeable part of MaxDuration (a loaded machine): whether the file it
+			// opened or wrote was "too old" at the moment of the check cannot be told from outside
+			h.st.hit("write:timing-unreliable-case-dropped")
+			h.skipRest = true
+			return "", ""
+		}
 		ea := time.Since(lcBefore)
 		rotated := !h.sink.LastCreated.Equal(lcBefore)
 		md := time.Duration(h.md) * time.Millisecond
@@ -352,9 +395,9 @@ func (h *fsHarness) exec(line string) (string, string) {
 		h.checkFiles(false)
 		return line, "ok " + h.listing()
 	case "extrename":
-		name := "ev.log"
+		name := h.plainName()
 		if !h.tso && (h.mb > 0 || h.md != 0) {
-			name = fmt.Sprintf("ev-%d.log", h.sink.LastCreated.UnixNano())
+			name = fmt.Sprintf("%s-%d%s", h.stem, h.sink.LastCreated.UnixNano(), h.tsExt())
 		}
 		target := filepath.Join(h.dir, "moved"+f[1]+".log")
 		if _, err := os.Stat(filepath.Join(h.dir, name)); err == nil {
@@ -408,7 +451,11 @@ func fsConcurrent(h *fsHarness, p *prng, rounds int) {
 		h.st.Cases++
 		dir := filepath.Join(h.base, fmt.Sprintf("conc%d", r))
 		os.RemoveAll(dir)
-		sink := &eventlogger.FileSink{Path: dir, FileName: "ev.log", MaxBytes: 200 + p.intn(300), MaxFiles: 0, TimestampOnlyOnRotate: p.intn(2) == 0}
+		mbC := 200 + p.intn(300)
+		if p.chance(1, 2) {
+			mbC = 40 + p.intn(60) // a rotation every event or two
+		}
+		sink := &eventlogger.FileSink{Path: dir, FileName: "ev.log", MaxBytes: mbC, MaxFiles: 0, TimestampOnlyOnRotate: p.intn(2) == 0}
 		nW := 1 + p.intn(8)
 		var wg sync.WaitGroup
 		var mu sync.Mutex
@@ -432,7 +479,7 @@ func fsConcurrent(h *fsHarness, p *prng, rounds int) {
 			}(w)
 		}
 		wg.Wait()
-		hh := &fsHarness{dir: dir, st: h.st}
+		hh := &fsHarness{dir: dir, st: h.st, stem: "ev", ext: ".log"}
 		fs, bad := hh.list()
 		if bad != "" {
 			h.oracle("C08 concurrent writers: %s", bad)
@@ -449,6 +496,28 @@ func fsConcurrent(h *fsHarness, p *prng, rounds int) {
 				h.oracle("C08 concurrent writers: acknowledged event %d present %d times", a, seen[a])
 				break
 			}
+		}
+		// reading the files oldest to newest (rotated files by timestamp, then the active plain file) keeps
+		// every writer's own events in the order it sent (and had acknowledged) them
+		var seq []int
+		for _, f := range fs {
+			if f.kind == "ts" {
+				seq = append(seq, f.ids...)
+			}
+		}
+		for _, f := range fs {
+			if f.kind == "plain" {
+				seq = append(seq, f.ids...)
+			}
+		}
+		lastOf := map[int]int{}
+		for _, id := range seq {
+			w := id / 1000
+			if id <= lastOf[w] {
+				h.oracle("C08 concurrent writers: reading the files oldest to newest, event %d of writer %d comes after its event %d: acknowledgement order lost across files", id, w, lastOf[w])
+				break
+			}
+			lastOf[w] = id
 		}
 		h.st.Ops += nW * 40
 		h.st.hit(fmt.Sprintf("concurrent:writers=%d", nW))
@@ -492,7 +561,7 @@ func fsKill(h *fsHarness, p *prng, rounds int) {
 		cmd.Process.Signal(syscall.SIGKILL)
 		cmd.Wait()
 		acked := <-done
-		hh := &fsHarness{dir: dir, st: h.st}
+		hh := &fsHarness{dir: dir, st: h.st, stem: "ev", ext: ".log"}
 		fs, bad := hh.list()
 		if bad != "" {
 			h.oracle("C08 after SIGKILL: %s", bad)
@@ -548,8 +617,9 @@ func filesinkMain(args []string) {
 		st.Cases++
 		st.hit("case:" + kind)
 		h.diverged = false
+		h.skipRest = false
 		for _, op := range ops {
-			if h.diverged {
+			if h.diverged || h.skipRest {
 				break
 			}
 			opLine, res := h.exec(op)
